@@ -14,13 +14,14 @@ RULE = ('histories in which ops fail for every listed reason (wrong / foreign ch
         '/ remove / dot-None / to_string on a deterministic symbol subset of every type, (b) Hypothesis-drawn adaptive '
         'histories steered so that failures happen after duplication and after intelligent-choice attempts.  '
         'Differential twin: A runs the history, B runs it with the ops that raised on A replaced by no-ops; after '
-        'EVERY step obs(A)==obs(B) (both child views by identity label, attributes, value, to_string text or '
-        'exception type + missing-children message); at the first failure point and at the end, for sampled '
+        'EVERY step obs(A)==obs(B) (both child views by identity label, attributes, value); at the first failure point '
+        'and at the end the to_string text or exception type + missing-children message (both intelligent_choice '
+        'values at the end) obtained by REPLAYING each history on fresh objects must agree, and, for sampled '
         'alphabet symbols (all symbols in the thorough tier) the accept/reject verdict of add_child obtained by '
         'REPLAYING each history on fresh objects and appending the probe must agree.  Non-trivial = >=1 failing op '
         'followed by >=1 later op; distinct by (element, ops).')
-ASSUMPTIONS = ['observation (getters and to_string(intelligent_choice=False)) is performed at the same points on both '
-               'twins, so side effects of observing (C16\'s subject) cannot masquerade as a C10 difference']
+ASSUMPTIONS = ['observation during the run uses getters only; every to_string verdict that is compared is obtained on a '
+               'fresh replay of the respective history, so observing never feeds back into either twin']
 EXHAUSTIVE = False
 
 WEIGHTS = {'add': 10, 'add_fwd': 3, 'remove': 3, 'remove_nonchild': 2, 'replace': 2, 'replace_nonchild': 1,
@@ -29,6 +30,9 @@ WEIGHTS = {'add': 10, 'add_fwd': 3, 'remove': 3, 'remove_nonchild': 2, 'replace'
 
 
 def run_observed(el, ops, skip=()):
+    """structural observations (both child views, attributes, value) after every step; to_string is NOT called while
+    observing - a failing to_string is itself one of the operations under test, and calling it on the twin would
+    give the twin the same side effects"""
     run = Run(el)
     if run.e is None:
         return run, [], set()
@@ -41,17 +45,19 @@ def run_observed(el, ops, skip=()):
             r = run.apply(op)
             if r is not None and not r.ok:
                 failed.add(i)
-        trace.append(run.obs())
+        trace.append(run.obs(with_string=False))
     return run, trace, failed
 
 
-def probe(el, ops, skip, upto, sym):
-    """verdict of add(sym) after replaying ops[:upto] (with the same observation calls) on a fresh object"""
+def replay_then(el, ops, skip, upto, what):
+    """replay ops[:upto] on a fresh object, then `what`: ('add', sym) -> verdict of add_child, ('string', ic) ->
+    to_string verdict"""
     run, _, _ = run_observed(el, ops[:upto], skip)
     if run.e is None:
         return 'noparent'
-    r = call(run.e.add_child, stub(sym))
-    return r.verdict()
+    if what[0] == 'add':
+        return call(run.e.add_child, stub(what[1])).verdict()
+    return run.string_verdict(bool(what[1]))
 
 
 def diff_fields(a, b):
@@ -78,14 +84,24 @@ def check(el, ops, probe_syms=None, all_points=False):
             return A, F('state-differs-after-failed-op', {'step': i, 'fields': fields,
                                                            'A': {k: x[k] for k in fields},
                                                            'B': {k: y[k] for k in fields}}, i), failed
+    points = sorted(failed)[:1] + [len(ops) - 1]
+    if all_points:
+        points = sorted(failed) + [len(ops) - 1]
+    points = sorted(set(points))
+    # serialisation / missing-children verdict after the failure point and at the end, each obtained on FRESH replays
+    for pt in points:
+        for ic in ((0, 1) if pt == len(ops) - 1 else (0,)):
+            va = replay_then(el, ops, (), pt + 1, ('string', ic))
+            vb = replay_then(el, ops, failed, pt + 1, ('string', ic))
+            if va != vb:
+                return A, F('state-differs-after-failed-op',
+                            {'step': pt, 'fields': ['string'], 'intelligent_choice': ic, 'A': {'string': va},
+                             'B': {'string': vb}}, pt), failed
     if probe_syms and A.dfa is not None:
-        points = sorted(failed)[:1] + [len(ops) - 1]
-        if all_points:
-            points = sorted(failed) + [len(ops) - 1]
-        for pt in sorted(set(points)):
+        for pt in points:
             for sym in probe_syms:
-                va = probe(el, ops, (), pt + 1, sym)
-                vb = probe(el, ops, failed, pt + 1, sym)
+                va = replay_then(el, ops, (), pt + 1, ('add', sym))
+                vb = replay_then(el, ops, failed, pt + 1, ('add', sym))
                 if va != vb:
                     return A, F('acceptance-differs-after-failed-op',
                                 {'after_step': pt, 'symbol': sym, 'A': va, 'B': vb}, pt), failed
